@@ -1,6 +1,6 @@
 #!/usr/bin/env python3
 """API-level replay for the C02 harnesses: with --color-only the real binary must emit exactly one
-output line per input line for file-header and hunk-header lines, whatever styles are configured
+output line per input line for commit, file-header and hunk-header lines, whatever styles are configured
 (omit / raw styles, decorations, line numbers, side-by-side).
 usage: color_only_lines.py <tree> <outdir>    exit 1 = violation reproduced on the real binary"""
 import fcntl, itertools, os, re, subprocess, sys
@@ -25,7 +25,8 @@ with open(os.path.join(BUILD, "native.lock"), "w") as lk:
     subprocess.run(["cp", os.path.join(target, "debug", "delta"), exe], check=True)
 
 ANSI = re.compile(r"\x1b\[[0-9;?]*[ -/]*[@-~]")
-diff = ("diff --git a/src/f.rs b/src/f.rs\nindex 1111111..2222222 100644\n--- a/src/f.rs\n+++ b/src/f.rs\n@@ -40,3 +50,3 @@ fn ctx()\n ctx\n-old\n+new\n ctx2\n"
+diff = ("commit 94907c0f136f46dc46ffae2dc92dca9af7eb7c2e\nAuthor: A U Thor <a@example.com>\nDate:   Thu Jan 1 00:00:00 1970 +0000\n\n    subject line\n\n"
+        "diff --git a/src/f.rs b/src/f.rs\nindex 1111111..2222222 100644\n--- a/src/f.rs\n+++ b/src/f.rs\n@@ -40,3 +50,3 @@ fn ctx()\n ctx\n-old\n+new\n ctx2\n"
         "diff --git a/born.txt b/born.txt\nnew file mode 100644\nindex 0000000..1111111\n--- /dev/null\n+++ b/born.txt\n@@ -0,0 +1 @@\n+x\n"
         "diff --git a/dead.txt b/dead.txt\ndeleted file mode 100644\nindex 1111111..0000000\n--- a/dead.txt\n+++ /dev/null\n@@ -1 +0,0 @@\n-y\n"
         "diff --git a/o.txt b/n.txt\nsimilarity index 90%\nrename from o.txt\nrename to n.txt\nindex 1111111..2222222 100644\n--- a/o.txt\n+++ b/n.txt\n@@ -1 +1 @@\n-p\n+q\n")
@@ -33,7 +34,8 @@ n_in = diff.count("\n")
 bad = 0
 opts = [[], ["--file-style", "red"], ["--file-style", "omit"], ["--hunk-header-style", "omit"], ["--file-style", "raw"], ["--hunk-header-style", "raw"],
         ["--file-decoration-style", "box"], ["--hunk-header-decoration-style", "box ul"], ["--line-numbers"], ["--side-by-side"],
-        ["--file-style", "omit", "--hunk-header-style", "omit", "--line-numbers"], ["--hunk-header-style", "file line-number syntax"]]
+        ["--file-style", "omit", "--hunk-header-style", "omit", "--line-numbers"], ["--hunk-header-style", "file line-number syntax"],
+        ["--commit-style", "omit"], ["--commit-style", "raw"], ["--commit-decoration-style", "box"], ["--commit-style", "omit", "--commit-decoration-style", "ul"]]
 for o in opts:
     p = subprocess.run([exe, "--no-gitconfig", "--color-only"] + o, input=diff, capture_output=True, text=True, env=env)
     n_out = p.stdout.count("\n")
